@@ -104,7 +104,8 @@ func vfDlgNameAddr(uri string, tag string, v int, side int, rnd func(int) int) (
 		sb.WriteString(tag)
 	}
 	if decor && rnd(2) == 0 {
-		sb.WriteString(";baz")
+		// a valueless one, a token-valued one, or a quoted-string value (gen-value = token / host / quoted-string) - quotes behind the '>'
+		sb.WriteString([]string{";baz", ";baz", ";x-info=\"front desk\"", ";q=\"a;b\";baz"}[rnd(4)])
 		cls += "hparam-after,"
 	}
 	return sb.String(), cls
